@@ -166,7 +166,7 @@ def bulk_job(arg):
     return rep
 
 
-OPS = ["store", "has", "fetch", "sync", "fetch_paths", "reopen", "has_absent", "fetch_absent", "fetch_paths_absent"]
+OPS = ["store", "has", "fetch", "sync", "fetch_paths", "reopen", "has_absent", "fetch_absent", "fetch_paths_absent", "sync_other", "resync"]
 
 
 def gen_sequence(rng, n, paths, nkeys=10):
@@ -174,7 +174,7 @@ def gen_sequence(rng, n, paths, nkeys=10):
     for _ in range(n):
         op = rng.choice(OPS)
         k = rng.randrange(nkeys)
-        if op in ("sync",):
+        if op in ("sync", "sync_other"):
             m = rng.sample(range(len(paths)), rng.randrange(1, min(3, len(paths)) + 1))
             seq.append((op, [(i, rng.randrange(nkeys)) for i in m]))
         elif op in ("fetch_paths", "fetch_paths_absent"):
@@ -200,6 +200,8 @@ def seq_job(arg):
             pmap = {}
             rep.evaluations += 1
             sawp = False
+            last_sync = None
+
             def bad(what, mech=None):
                 rep.violate("%s after %r: %s" % (kind, seq[: step + 1], what), {"kind": kind, "seq": seq, "paths": paths, "step": step}, mechanism=mech)
 
@@ -244,6 +246,30 @@ def seq_job(arg):
                         for p, key in m.items():
                             pmap[p] = key
                         sawp = True
+                        last_sync = m
+                    elif op == "sync_other":
+                        # another writer on the same storage (a second store object on the same directories; for the
+                        # in-memory kinds the object under the cache wrapper) commits paths behind this handle's back
+                        other = _other_handle(kind, root, st)
+                        if other is not None:
+                            m = OrderedDict()
+                            for (pi, ki) in a:
+                                key = SM.key_for(ki)
+                                if key not in blobs:
+                                    other.store_blob(key, VALUES[ki % len(VALUES)], None)
+                                    blobs[key] = VALUES[ki % len(VALUES)]
+                                m[_mk_path(paths[pi])[0]] = key
+                            other.sync_paths(m)
+                            rep.count("commits_by_second_handle")
+                            for p, key in m.items():
+                                pmap[p] = key
+                    elif op == "resync":
+                        # the long-lived handle commits again exactly what it committed last
+                        if last_sync is not None:
+                            st.sync_paths(last_sync)
+                            rep.count("recommits_of_last_map")
+                            for p, key in last_sync.items():
+                                pmap[p] = key
                     elif op in ("fetch_paths", "fetch_paths_absent"):
                         p = _mk_path(paths[a])[0] if op == "fetch_paths" else _mk_path("/never/kept%d" % a)[0]
                         if p in pmap:
@@ -264,6 +290,7 @@ def seq_job(arg):
                     elif op == "reopen":
                         if kind != "memory":
                             st = SM.make_store(kind, root, reopen=True)
+                            last_sync = None
                 except BaseException as e:
                     bad("raised %s: %s" % (type(e).__name__, str(e)[:150]), "store-op-raised")
                     ok = False
@@ -286,6 +313,15 @@ def seq_job(arg):
             if sawp and blobs:
                 rep.nontriv(("seq", kind, repr(seq)))
     return rep
+
+
+def _other_handle(kind, root, st):
+    """A second writer on the storage behind `st` (None when the kind has no shareable storage)."""
+    if kind in ("memory",):
+        return None
+    if kind == "memory_lru":
+        return st._store  # the wrapped MemoryStore: what another cache wrapper on the same store would write to
+    return SM.make_store(kind, root, reopen=True)
 
 
 def _alias_mech(p, got, pmap):
@@ -364,7 +400,7 @@ def run(tier, seed):
     rep.rule = (
         "bulk: per store kind, every path of 1, 2 and 3 segments over the 9-segment alphabet %r (9+81+729=819 paths; same-depth sets so that no path "
         "is a prefix of another), plus prefix-free mixed-depth sets with 4 segments, doubled and trailing separators, each committed with its own key and "
-        "resolved back; sequences: enumerated+random op sequences (store/has/fetch/sync/fetch_paths/reopen, present and absent keys and paths) checked "
+        "resolved back; sequences: enumerated+random op sequences (store/has/fetch/sync/fetch_paths/reopen, commits by a second handle on the same storage, re-commit of the last map; present and absent keys and paths) checked "
         "against a dictionary model after every answer and in a final sweep; api: the same paths through dds.keep/dds.load. "
         "distinct_nontrivial = distinct (store kind, path set) bulk runs with >=2 committed paths + distinct op sequences that committed a path and stored a blob."
         % (SM.SEGMENTS,)
@@ -396,6 +432,11 @@ def run(tier, seed):
     maxlen = 12 if tier == "quick" else 30
     for kind in SM.STORE_KINDS:
         seqs = [gen_sequence(rng, rng.randrange(2, maxlen + 1), spaths) for _ in range(nseq)]
+        # enumerated: handle commits, a second handle moves some of those paths, the first handle commits the same map again
+        for pi in range(len(spaths)):
+            for extra in ([], [((pi + 1) % len(spaths), 3)]):
+                for mid in ([], [("fetch_paths", pi)], [("reopen", 0)]):
+                    seqs.append([("sync", [(pi, 1)] + extra), ("sync_other", [(pi, 2)])] + mid + [("resync", 0), ("fetch_paths", pi)])
         for i in range(0, len(seqs), 50):
             jobs.append(("seq", (kind, seqs[i : i + 50], spaths)))
     # API level
